@@ -46,6 +46,12 @@ class HyperWorld(World):
 
     @classmethod
     def gen_config(cls, rng, tier, faults):
+        if rng.random() < 0.3:
+            # the surface operators (follower pressure, penalty contact) wired into a HyperElastic subclass the way the
+            # repository's examples do: see engines/hyper_surf.py
+            from .hyper_surf import gen_surf_config
+
+            return {"surf": gen_surf_config(rng, tier), "nops": int(rng.integers(10, 31)), "faults": bool(faults)}
         three = tier == "thorough" and rng.random() < 0.15
         dim = 3 if three else 2
         law = ["NeoHookean", "MooneyRivlin", "CiarletGeymonat", "SaintVenantKirchhoff", "HolzapfelOgden"][int(rng.integers(5))]
@@ -92,6 +98,19 @@ class HyperWorld(World):
         self.solver = seams.SolverSeam(ctx, Solvers)
         from EasyFEA import Simulations
 
+        if "surf" in cfg:
+            from .hyper_surf import SurfHyper
+
+            try:
+                self.surf = SurfHyper(cfg, ctx, self.solver)
+            except BaseException:
+                self.close()
+                raise
+            self.gen_op = self.surf.gen_op
+            self.apply = self.surf.apply
+            self.observe = self.surf.observe
+            self.abstract_state = self.surf.abstract_state
+            return
         raw = meshlib.library()[cfg["mesh"]]
         self.tags = simlib.boundary_tags(raw)
         self.dim = cfg["params"]["dim"]
